@@ -225,6 +225,9 @@ class _CGMYLevyMeasure(LevyMeasure):
         if h == 0 and alpha < 0:
             return scipy.special.gamma(-alpha) * u**alpha
 
+        if h == 0 and alpha > 0:
+            return np.inf  # infinite activity: infinite mass next to zero
+
         expmuh = np.exp(-uh)
         if alpha >= 1:
             return expmuh / (alpha * h**alpha) - (
